@@ -69,6 +69,7 @@ type frame struct {
 	callSeqN map[string]int
 	kcell    ssa.Value
 	dynCalls int
+	atCallN  int
 }
 
 func (fr *frame) name(v ssa.Value) string {
